@@ -1,3 +1,4 @@
+import Sx.Lemmas.GhostCbs
 import Sx.Lemmas.WpLib
 import Sx.Lemmas.Fifo
 /-
@@ -347,5 +348,236 @@ theorem C05_cached_implicit (c : SysCfg) (hc : c.cached = true) (hnr : c.NoReact
   · show (s.step c (.api .irq [] [])).1.handle = _
     rw [hhd, hq2]
 
+
+/-! ### sequences of packets -/
+
+/-- writing `data[i]` at `(start + i) % 256` for `i < m ≤ 256`, then reading `(start + j) % 256`
+    for `j < m`, gives `data[j]`; other cells keep their value -/
+theorem fill_read (data : List UInt8) (start : Nat) (m : Nat) (hm : m ≤ 256) (b : Mem) (hb : b.length = 256) :
+    ((List.range m).foldl (fun b i => b.wr ((start + i) % 256) (data.getD i 0)) b).length = 256 ∧
+    ∀ j, j < m → ((List.range m).foldl (fun b i => b.wr ((start + i) % 256) (data.getD i 0)) b).rd ((start + j) % 256) = data.getD j 0 := by
+  induction m with
+  | zero => exact ⟨by simpa using hb, fun j hj => absurd hj (Nat.not_lt_zero _)⟩
+  | succ n ih =>
+    obtain ⟨hl, hr⟩ := ih (by omega)
+    rw [List.range_succ, List.foldl_append]
+    simp only [List.foldl_cons, List.foldl_nil]
+    refine ⟨by rw [Mem.length_wr]; exact hl, ?_⟩
+    intro j hj
+    by_cases hjn : j = n
+    · subst hjn
+      exact rd_wr_same _ _ _ (by rw [hl]; exact Nat.mod_lt _ (by decide))
+    · have hne : (start + n) % 256 ≠ (start + j) % 256 := by omega
+      rw [rd_wr_ne _ _ _ _ hne]
+      exact hr j (by omega)
+
+
+
+/-- a LoRa packet as the chip receives it: where it is stored in the 256-byte buffer, whether
+    its payload CRC failed, and its (at most 255) bytes -/
+structure LoraPkt where
+  start : UInt8
+  crcErr : Bool
+  data : List UInt8
+
+/-- what the chip looks like after it received a packet, starting from cleared interrupt flags -/
+theorem loraRx_chip (c : Chip) (wf : c.WF) (hflags : c.lora.rd 0x12 = 0) (p : LoraPkt) (hlen : p.data.length ≤ 255) :
+    let c' := Env.apply c (.loraRx p.start p.crcErr p.data)
+    c'.shared = c.shared ∧ c'.fsk = c.fsk ∧ c'.WF ∧
+    c'.lora.rd 0x12 = 0x50 ||| (if p.crcErr then 0x20 else 0) ∧
+    c'.lora.rd 0x10 = p.start ∧ (c'.lora.rd 0x13).toNat = p.data.length ∧
+    loraPacket c' p.start p.data.length = p.data := by
+  intro c'
+  have htake : p.data.take 255 = p.data := List.take_of_length_le hlen
+  have hc' : c' = { c with
+      buf := (List.range p.data.length).foldl (fun b i => b.wr ((p.start.toNat + i) % 256) (p.data.getD i 0)) c.buf,
+      lora := (((c.lora.wr 0x10 p.start).wr 0x13 (UInt8.ofNat p.data.length)).wr 0x25 (p.start + UInt8.ofNat p.data.length)).wr 0x12
+        ((((c.lora.wr 0x10 p.start).wr 0x13 (UInt8.ofNat p.data.length)).wr 0x25 (p.start + UInt8.ofNat p.data.length)).rd 0x12 ||| 0x50 ||| (if p.crcErr then 0x20 else 0)) } := by
+    show Env.apply c (.loraRx p.start p.crcErr p.data) = _
+    unfold Env.apply
+    simp only [htake]
+  obtain ⟨hfl, hfr⟩ := fill_read p.data p.start.toNat p.data.length (by omega) c.buf wf.hb
+  have l128 : ∀ (a : Nat) (v : UInt8) (m : Mem), m.length = 128 → (m.wr a v).length = 128 := fun a v m h => by rw [Mem.length_wr]; exact h
+  rw [hc']
+  refine ⟨rfl, rfl, ⟨wf.hs, ?_, wf.hf, hfl⟩, ?_, ?_, ?_, ?_⟩
+  · exact l128 _ _ _ (l128 _ _ _ (l128 _ _ _ (l128 _ _ _ wf.hl)))
+  · show ((((c.lora.wr 0x10 p.start).wr 0x13 _).wr 0x25 _).wr 0x12 _).rd 0x12 = _
+    rw [rd_wr_same _ _ _ (by rw [l128 _ _ _ (l128 _ _ _ (l128 _ _ _ wf.hl))]; decide)]
+    rw [rd_wr_ne _ 0x25 0x12 _ (by decide), rd_wr_ne _ 0x13 0x12 _ (by decide), rd_wr_ne _ 0x10 0x12 _ (by decide), hflags]
+    simp
+  · show ((((c.lora.wr 0x10 p.start).wr 0x13 _).wr 0x25 _).wr 0x12 _).rd 0x10 = _
+    rw [rd_wr_ne _ 0x12 0x10 _ (by decide), rd_wr_ne _ 0x25 0x10 _ (by decide), rd_wr_ne _ 0x13 0x10 _ (by decide)]
+    exact rd_wr_same _ _ _ (by rw [wf.hl]; decide)
+  · show (((((c.lora.wr 0x10 p.start).wr 0x13 _).wr 0x25 _).wr 0x12 _).rd 0x13).toNat = _
+    rw [rd_wr_ne _ 0x12 0x13 _ (by decide), rd_wr_ne _ 0x25 0x13 _ (by decide)]
+    rw [rd_wr_same _ _ _ (by rw [l128 _ _ _ wf.hl]; decide)]
+    simp; omega
+  · unfold loraPacket
+    apply List.ext_getElem
+    · simp
+    · intro i h1 h2
+      simp only [List.getElem_map, List.getElem_range]
+      have hi : i < p.data.length := by simpa using h1
+      rw [hfr i hi]
+      simp [List.getD_eq_getElem?_getD, hi]
+
+
+
+/-- `C05_crc_error` with the chip afterwards: only the flags are acknowledged -/
+theorem C05_crc_error_chip (fuel : Nat) (h : Handle) (c : Chip) (hl : c.isLora = true)
+    (hm : h.activeModem = Gen.SX127x_MODULATION_LORA)
+    (hcad : c.lora.rd 0x12 &&& 0x04 = 0) (hcrc : c.lora.rd 0x12 &&& 0x20 ≠ 0) :
+    wp (handleInterrupt fuel) h ⟨c, [], []⟩ (fun _ h' s' =>
+      s'.cbs = [] ∧ h' = { h with curFreq := 0 } ∧
+      s'.chip = { c with lora := c.lora.wr 0x12 (c.lora.rd 0x12 &&& ~~~ c.lora.rd 0x12) }) := by
+  rw [wp_handleInterrupt_lora _ _ _ _ hm]
+  unfold loraHandleInterrupt
+  simp only [wp_bind, wp_rread, wp_swrite, wp_getH, show Gen.REGIRQFLAGS = 0x12 from rfl,
+    readN_one _ 0x12 (by decide), show (0x12 % 128) = 0x12 from rfl, peek_lora _ _ hl (show inPage 0x12 = true by decide),
+    be32_single, writeN_one, flag_consts.1, flag_consts.2.1, hcad, hcrc, ne_eq,
+    not_true_eq_false, not_false_eq_true, ↓reduceIte, wp_modH, write_lora_flags _ _ hl]
+  exact ⟨by trivial, by trivial, by trivial⟩
+
+
+
+theorem u8_and_not_self (x : UInt8) : x &&& ~~~ x = 0 := by
+  apply UInt8.eq_of_toBitVec_eq
+  simp
+
+/-- a LoRa receiver between two packets: coherent cache, LoRa page selected, explicit-header
+    reception with a callback, a buffer for the longest packet, all interrupt flags cleared -/
+structure LoraIdle (s : Sys) (h : Handle) : Prop where
+  inv : Inv s.world
+  handle : s.handle = some h
+  page : s.world.chip.isLora = true
+  modem : h.activeModem = Gen.SX127x_MODULATION_LORA
+  cb : h.rxCb = true
+  exp : h.expected = 0
+  cap : 255 ≤ h.packet.length
+  flags : s.world.chip.lora.rd 0x12 = 0
+
+/-- the callbacks a packet must produce -/
+def LoraPkt.expected (p : LoraPkt) : List CbEvent := if p.crcErr then [] else [.rx p.data p.data.length]
+
+/-- what the application sees of a sequence of packets, each followed by one handler invocation -/
+def LoraSeen : List LoraPkt → List Obs → Prop
+  | [], [] => True
+  | p :: ps, .env :: o :: rest => o.cbEvents = p.expected ∧ (∃ r cbs bus, o = .ret r cbs bus) ∧ LoraSeen ps rest
+  | _, _ => False
+
+def loraOps (ps : List LoraPkt) : List Op :=
+  ps.flatMap fun p => [.env (.loraRx p.start p.crcErr p.data), .api .irq [] []]
+
+/-- one packet, one invocation -/
+theorem LoraIdle.packet (c : SysCfg) (hc : c.cached = true) (hnr : c.NoReact) {s : Sys} {h : Handle} (hi : LoraIdle s h)
+    (p : LoraPkt) (hlen : p.data.length ≤ 255) :
+    let s1 := (s.step c (.env (.loraRx p.start p.crcErr p.data))).1
+    (s.step c (.env (.loraRx p.start p.crcErr p.data))).2 = .env ∧
+    ∃ r cbs bus h', (s1.step c (.api .irq [] [])).2 = .ret r cbs bus ∧ cbs.map (·.ev) = p.expected ∧
+      LoraIdle (s1.step c (.api .irq [] [])).1 h' := by
+  intro s1
+  refine ⟨rfl, ?_⟩
+  have hs1 : s1 = { s with world := { s.world with chip := Env.apply s.world.chip (.loraRx p.start p.crcErr p.data) } } := rfl
+  obtain ⟨e1, e2, wf1, f12, f10, f13, hpkt⟩ := loraRx_chip s.world.chip hi.inv.chip hi.flags p hlen
+  have st := Env.apply_stable hi.inv.chip (.loraRx p.start p.crcErr p.data) rfl
+  have i1 : Inv s1.world := ⟨st.wf, hi.inv.cache, Cache.coh_stable hi.inv.cache hi.inv.coh st, hi.inv.sched⟩
+  have hl1 : s1.world.chip.isLora = true := by
+    show (Env.apply s.world.chip _).isLora = true
+    unfold Chip.isLora; rw [e1]; exact hi.page
+  have hh1 : s1.handle = some h := hi.handle
+  cases hce : p.crcErr with
+  | false =>
+    have hflag : s1.world.chip.lora.rd 0x12 = 0x50 := by
+      show (Env.apply s.world.chip _).lora.rd 0x12 = _; rw [f12, hce]; rfl
+    have hw := wp_irq c.cap c.fuel _ _ _ (C05_rx_done c.fuel h s1.world.chip i1.chip hl1 hi.modem hi.cb hi.exp
+      (by show ((Env.apply s.world.chip _).lora.rd 0x13).toNat ≤ _; rw [f13]; exact Nat.le_trans hlen hi.cap)
+      (by rw [hflag]; decide) (by rw [hflag]; decide) (by rw [hflag]; decide))
+    obtain ⟨r, h', ps, cbs, bus, hobs, hhd, hchip, hq, hcbs, _, hinv⟩ :=
+      step_cached_of_wp c hc hnr s1 i1 .irq trivial h hh1 rfl _ hw
+    obtain ⟨_, r0, q1, q2, q3, _, q5, _⟩ := hq
+    have hp13 : (s1.world.chip.lora.rd 0x13).toNat = p.data.length := f13
+    have hp10 : s1.world.chip.lora.rd 0x10 = p.start := f10
+    refine ⟨r, cbs, bus, h', hobs, ?_, ⟨hinv, hhd, ?_, ?_, ?_, ?_, ?_, ?_⟩⟩
+    · rw [hcbs, q1, hp10, hp13]
+      show [CbEvent.rx (loraPacket (Env.apply s.world.chip _) p.start p.data.length) p.data.length].reverse = _
+      rw [hpkt]; unfold LoraPkt.expected; rw [hce]; rfl
+    · rw [hchip]; unfold Chip.isLora; rw [q5]; exact hl1
+    · rw [q2]; exact hi.modem
+    · rw [q2]; exact hi.cb
+    · rw [q2]; rfl
+    · rw [q2]; show (h.packet.wrs 0 _).length ≥ 255; rw [Mem.length_wrs]; exact hi.cap
+    · rw [hchip, q3]; exact u8_and_not_self _
+  | true =>
+    have hflag : s1.world.chip.lora.rd 0x12 = 0x70 := by
+      show (Env.apply s.world.chip _).lora.rd 0x12 = _; rw [f12, hce]; rfl
+    have hw := wp_irq c.cap c.fuel _ _ _ (C05_crc_error_chip c.fuel h s1.world.chip hl1 hi.modem
+      (by rw [hflag]; decide) (by rw [hflag]; decide))
+    obtain ⟨r, h', ps, cbs, bus, hobs, hhd, hchip, hq, hcbs, _, hinv⟩ :=
+      step_cached_of_wp c hc hnr s1 i1 .irq trivial h hh1 rfl _ hw
+    obtain ⟨_, r0, q1, q2, q3⟩ := hq
+    refine ⟨r, cbs, bus, h', hobs, ?_, ⟨hinv, hhd, ?_, ?_, ?_, ?_, ?_, ?_⟩⟩
+    · rw [hcbs, q1]; unfold LoraPkt.expected; rw [hce]; rfl
+    · rw [hchip, q3]; exact hl1
+    · rw [q2]; exact hi.modem
+    · rw [q2]; exact hi.cb
+    · rw [q2]; exact hi.exp
+    · rw [q2]; exact hi.cap
+    · rw [hchip, q3]
+      show (s1.world.chip.lora.wr 0x12 _).rd 0x12 = 0
+      rw [rd_wr_same _ _ _ (by rw [i1.chip.hl]; decide)]
+      exact u8_and_not_self _
+
+
+
+theorem run_append (c : SysCfg) (s : Sys) (a b : List Op) :
+    Sys.run c s (a ++ b) = ((Sys.run c (Sys.run c s a).1 b).1, (Sys.run c s a).2 ++ (Sys.run c (Sys.run c s a).1 b).2) := by
+  induction a generalizing s with
+  | nil => simp [Sys.run]
+  | cons x xs ih =>
+    simp only [List.cons_append, Sys.run]
+    rw [ih]
+
+/-- **C05, sequences of packets.** In the build with the register cache, from a LoRa receiver
+    between two packets (any state reachable by an admissible history that leaves it idle), for
+    every sequence of packets — any lengths up to 255, any buffer positions (wrap-around
+    included), any contents, with and without payload CRC error, in any order — each followed by
+    one handler invocation: every invocation shows exactly the callbacks of *its* packet (the
+    receive callback with exactly the bytes and the length, or nothing for a CRC-failed packet);
+    the outcome for a packet does not depend on what preceded it. -/
+theorem C05_sequence (c : SysCfg) (hc : c.cached = true) (hnr : c.NoReact) (ps : List LoraPkt)
+    (hlen : ∀ p ∈ ps, p.data.length ≤ 255) (s : Sys) (h : Handle) (hi : LoraIdle s h) :
+    LoraSeen ps (Sys.run c s (loraOps ps)).2 := by
+  induction ps generalizing s h with
+  | nil => simp [loraOps, Sys.run, LoraSeen]
+  | cons p rest ih =>
+    obtain ⟨ho1, r, cbs, bus, h', ho2, hcbs, hi'⟩ := hi.packet c hc hnr p (hlen p List.mem_cons_self)
+    have hops : loraOps (p :: rest) = [.env (.loraRx p.start p.crcErr p.data), .api .irq [] []] ++ loraOps rest := by
+      simp [loraOps]
+    rw [hops, run_append]
+    have hrun2 : (Sys.run c s [.env (.loraRx p.start p.crcErr p.data), .api .irq [] []]).2 =
+        [(s.step c (.env (.loraRx p.start p.crcErr p.data))).2,
+         ((s.step c (.env (.loraRx p.start p.crcErr p.data))).1.step c (.api .irq [] [])).2] := by
+      simp [Sys.run]
+    have hrun1 : (Sys.run c s [.env (.loraRx p.start p.crcErr p.data), .api .irq [] []]).1 =
+        ((s.step c (.env (.loraRx p.start p.crcErr p.data))).1.step c (.api .irq [] [])).1 := by
+      simp [Sys.run]
+    show LoraSeen (p :: rest) (_ ++ _)
+    rw [hrun2, hrun1, ho1, ho2]
+    exact ⟨hcbs, ⟨r, cbs, bus, rfl⟩, ih (fun q hq => hlen q (List.mem_cons_of_mem _ hq)) _ h' hi'⟩
+
+
+
+/-- non-vacuity: a chip in LoRa receive mode with cleared flags, a fresh cache and a handle with a
+    255-byte buffer is `LoraIdle` -/
+example : LoraIdle
+    { world := { chip := { shared := (Mem.zeros 128).wr 1 0x85 } },
+      handle := some { activeModem := Gen.SX127x_MODULATION_LORA, rxCb := true, packet := Mem.zeros 255 } }
+    { activeModem := Gen.SX127x_MODULATION_LORA, rxCb := true, packet := Mem.zeros 255 } :=
+  ⟨⟨⟨by decide +kernel, by decide +kernel, by decide +kernel, by decide +kernel⟩, Cache.fresh_wf, Cache.fresh_coh _, fun e he => by cases he⟩,
+    rfl, by decide +kernel, rfl, rfl, rfl, by decide +kernel, by decide +kernel⟩
+
+/-- the expectation distinguishes packets: a CRC-failed packet must produce nothing, a good one
+    exactly its bytes -/
+example : (LoraPkt.mk 250 false [1, 2, 3]).expected = [.rx [1, 2, 3] 3] ∧ (LoraPkt.mk 0 true [9]).expected = [] := ⟨rfl, rfl⟩
 
 end Sx
